@@ -209,6 +209,9 @@ pub const ENGINE_STALL: &str = "engine-stall";
 pub struct Outcome {
     pub mismatch: Option<Value>,
     pub steps_run: u64,
+    /// things a judge wants reported without ending the case (deviations that are classified
+    /// separately by the check, e.g. an open known finding); each must carry "what"
+    pub notes: Vec<Value>,
 }
 
 /// Run one case on fresh OS threads.  `judge(step index, step, reply, observations)` returns a
@@ -255,7 +258,7 @@ pub fn run_case<M: Machine>(
             Err(RecvTimeoutError::Disconnected) => json!({"tool_error": "model thread died"}),
         }
     };
-    let mut out = Outcome { mismatch: None, steps_run: 0 };
+    let mut out = Outcome { mismatch: None, steps_run: 0, notes: Vec::new() };
     let mut hung: Vec<bool> = vec![false; nthreads];
     'steps: for (i, step) in steps.iter().enumerate() {
         let t = step["t"].as_u64().unwrap_or(0) as usize;
@@ -531,6 +534,20 @@ fn drive_shard<S: Send + 'static>(
                 *inflight[w].lock().unwrap() = None;
                 rep.cases += 1;
                 rep.checks += o.steps_run;
+                if !o.notes.is_empty() {
+                    let total = rep.extra.get("notes_total").and_then(|v| v.as_u64()).unwrap_or(0) + o.notes.len() as u64;
+                    rep.extra.insert("notes_total".into(), json!(total));
+                    let list = rep.extra.entry("notes".to_string()).or_insert_with(|| json!([]));
+                    if let Some(a) = list.as_array_mut() {
+                        for n in o.notes.iter() {
+                            // keep a few per distinct "what"
+                            let w = n["what"].as_str().unwrap_or("");
+                            if a.iter().filter(|x| x["what"].as_str() == Some(w)).count() < 3 {
+                                a.push(json!({"what": w, "note": n, "case": case, "no": no}));
+                            }
+                        }
+                    }
+                }
                 if let Some(mut mm) = o.mismatch {
                     mm["no"] = json!(no);
                     let what = mm["what"].as_str().unwrap_or("mismatch").to_string();
@@ -548,7 +565,10 @@ fn drive_shard<S: Send + 'static>(
     finished.store(true, Ordering::SeqCst);
     total.extra.insert("flaky_hangs".into(), json!(flaky.load(Ordering::SeqCst)));
     total.extra.insert("stopped_early".into(), json!(stop.load(Ordering::SeqCst)));
+    let (mut notes, mut notes_total) = (Vec::new(), 0u64);
     for r in results {
+        notes_total += r.extra.get("notes_total").and_then(|v| v.as_u64()).unwrap_or(0);
+        notes.extend(r.extra.get("notes").and_then(|v| v.as_array()).cloned().unwrap_or_default());
         total.cases += r.cases;
         total.checks += r.checks;
         total.total_mismatches += r.total_mismatches;
@@ -558,6 +578,8 @@ fn drive_shard<S: Send + 'static>(
             }
         }
     }
+    total.extra.insert("notes_total".into(), json!(notes_total));
+    total.extra.insert("notes".into(), json!(notes));
     total
 }
 
@@ -643,6 +665,7 @@ pub fn drive<S: Send + 'static>(
     }
     let mut total = Report::new();
     let (mut flaky, mut stopped) = (0u64, false);
+    let (mut pnotes, mut pnotes_total): (Vec<Value>, u64) = (Vec::new(), 0);
     for i in 0..procs {
         let text = std::fs::read_to_string(part(i)).unwrap_or_else(|e| tool_error(&format!("shard {i} left no report: {e}")));
         let v: Value = serde_json::from_str(&text).unwrap_or_else(|e| tool_error(&format!("shard {i} report: {e}")));
@@ -651,6 +674,13 @@ pub fn drive<S: Send + 'static>(
         total.checks += v["checks"].as_u64().unwrap_or(0);
         total.total_mismatches += v["total_mismatches"].as_u64().unwrap_or(0);
         flaky += v["extra"]["flaky_hangs"].as_u64().unwrap_or(0);
+        pnotes_total += v["extra"]["notes_total"].as_u64().unwrap_or(0);
+        for n in v["extra"]["notes"].as_array().cloned().unwrap_or_default() {
+            let w = n["what"].as_str().unwrap_or("").to_string();
+            if pnotes.iter().filter(|x: &&Value| x["what"].as_str() == Some(w.as_str())).count() < 3 {
+                pnotes.push(n);
+            }
+        }
         stopped |= v["extra"]["stopped_early"].as_bool().unwrap_or(false);
         for m in v["mismatches"].as_array().cloned().unwrap_or_default() {
             if total.mismatches.len() < total.max_mismatches {
@@ -661,6 +691,8 @@ pub fn drive<S: Send + 'static>(
     total.extra.insert("flaky_hangs".into(), json!(flaky));
     total.extra.insert("stopped_early".into(), json!(stopped));
     total.extra.insert("processes".into(), json!(procs));
+    total.extra.insert("notes_total".into(), json!(pnotes_total));
+    total.extra.insert("notes".into(), json!(pnotes));
     total
 }
 
